@@ -164,7 +164,7 @@ def run(ctx, lean, findings):
             break
     # recorded findings, minimal replays
     for f in findings:
-        if f.get('status') == 'open' and f.get('replay'):
+        if f.get('property') == PROP and f.get('status') == 'open' and f.get('replay'):
             if replay_input(ctx, drv, f['replay'], os.path.join(ctx.tmp, 'kf_' + f['id'])):
                 ctx.known(f['id'], f['what'])
             else:
